@@ -310,6 +310,7 @@ def harness(gen, info: Dict[str, Any], enc: Dict[str, Any], mapping: Dict[str, s
         o.append(f'static std::unique_ptr<{cfqn(p["itf"])}> g_inj_{pname};')
     if mc:
         o.append(f'static {sf_ns}::ILog g_log;')
+        o.append(f'static std::unique_ptr<{sf_ns}::ILog> g_handed_log;')
     o.append('')
     o.append('static std::string svc_of(const dzn::locator& l) {')
     o.append('  std::string svc = "["; bool first = true;')
@@ -455,8 +456,15 @@ def harness(gen, info: Dict[str, Any], enc: Dict[str, Any], mapping: Dict[str, s
     o.append('    { vmon::J j; j.s("shape", shape).raw("user_services", svc_of(*g_loc)).p("user_locator", g_loc.get())'
              '.p("user_pump", g_pump.get()).p("user_runtime", g_rt.get()); vmon::log("locator_before", j); }')
     o.append('    try {')
-    ctor_args = '*g_loc' + (', g_log' if mc else '') + ', "enc"'
+    if mc:
+        # the logger is handed over as a copy that its owner re-binds right after construction
+        # (the shell keeps what it needs - it does not log through the caller's object)
+        o.append(f'      g_handed_log.reset(new {sf_ns}::ILog(g_log));')
+    ctor_args = '*g_loc' + (', *g_handed_log' if mc else '') + ', "enc"'
     o.append(f'      g_shell.reset(new Shell({ctor_args}));')
+    if mc:
+        o.append('      g_handed_log->Info = g_handed_log->Warning = g_handed_log->Error = '
+                 '[](const std::string& m) { vmon::J j; j.s("msg", m); vmon::log("ilog_stale", j); };')
     o.append(f'      g_comp = static_cast<Comp*>(vmon::registry()["{info["fqn"]}"]);')
     o.append('      vmon::log("constructed");')
     o.append('    } catch (const std::exception& e) {')
